@@ -112,6 +112,15 @@ class FuncInfo:
             return [ast.Return(value=self.node.body)]
         return self.node.body
 
+    def specialise(self, recv_cls: "ClassInfo") -> "FuncInfo":
+        """A copy of this (stdlib mixin) method analysed with ``self`` typed as ``recv_cls``."""
+        g = FuncInfo(self.module, self.node, self.name, cls=self.cls, parent=self.parent, kind=self.kind)
+        g.self_cls = recv_cls
+        g.key = f"{self.key}@{recv_cls.name}"
+        g.nested = self.nested
+        g.lambdas = self.lambdas
+        return g
+
     def is_abstract_stub(self) -> bool:
         """Body is only (docstring +) ``raise NotImplementedError``."""
         if isinstance(self.node, ast.Lambda):
